@@ -679,11 +679,11 @@ def run_world(arg):
             for name, (b, snap) in summ["results"].items():
                 if name in summ["touched"]:
                     table.append((name, b, snap, P.state_key(proj), step["host"], "%s#%d" % (step["ws"], si)))
-            # (4) the recorded build-id is the final one
+            # (4) the recorded build-id of what was built or fetched in this invocation is the final one
             for name, inp in summ["inputs"].items():
                 fb = summ["bids"].get(name)
                 rb = inp.get("downloaded") if "downloaded" in inp else (inp.get("built") or [None])[0]
-                if name in summ["touched"] and fb is not None and rb != fb:
+                if name in summ["fresh"] and fb is not None and rb != fb:
                     viol("package %s recorded under build-id %s, final build-id %s" % (name, rb, fb), "recorded-bid-not-final", {"step": si})
             key = (step["state"], step["host"], step["develop"])
             if was_fresh and step["download"] == "no" and key not in refs:
@@ -757,6 +757,7 @@ def summarize(P, ws, obs, proj, step):
     dl_depth, dlcalls = {}, []
     requested, missing_forced = set(), False
     mispredicts = 0
+    fresh = set()      # packages built or fetched (not skipped) in the final round
     trace_violations = []
     cur = {}
     pending = {}
@@ -773,12 +774,14 @@ def summarize(P, ws, obs, proj, step):
             # the round is abandoned: only what the restarted round cooks counts
             mispredicts += 1
             touched.clear()
+            fresh.clear()
             dl_depth.clear()
         elif k == "run":
             if e[2] in ("build", "package"):
                 ran.add(name_of.get(e[1], e[1]))
             if e[2] == "package":
                 touched.add(name_of.get(e[1], e[1]))
+                fresh.add(name_of.get(e[1], e[1]))
         elif k == "dlEnter":
             cur[e[1]] = {"enter": e[2], "ops": [], "path": e[1]}
             touched.add(name_of.get(e[1], e[1]))
@@ -799,6 +802,8 @@ def summarize(P, ws, obs, proj, step):
         elif k == "download":
             requested.add(e[2])
             pending[e[1]] = {"hash": None, "audit": None}
+            if e[3] is True:
+                fresh.add(name_of.get(e[1], e[1]))
         elif k == "hash" and e[1] in pending:
             pending[e[1]]["hash"] = e[2]
         elif k == "auditRead" and e[1] in pending:
@@ -825,7 +830,7 @@ def summarize(P, ws, obs, proj, step):
     inv = {"dump": obs["dump"], "log": [e for e in obs["log"] if e[0] in
                                           ("bid", "srcbid", "mispredict", "dlEnter", "dlExit", "download", "run", "upload", "setInputs")],
            "rc": obs["rc"], "argv": obs["argv"]}
-    return {"bids": bids, "live": live, "touched": touched & set(results), "ran_pkgs": ran, "counts": counts, "dl_depth": dl_depth,
+    return {"bids": bids, "live": live, "fresh": fresh & set(results), "touched": touched & set(results), "ran_pkgs": ran, "counts": counts, "dl_depth": dl_depth,
             "dlcalls": dlcalls, "requested": requested, "missing_forced": missing_forced, "mispredicts": mispredicts,
             "trace_violations": trace_violations, "results": results, "manifest": manifest, "inputs": inp, "inv": inv}
 
